@@ -55,7 +55,7 @@ def _case(draw, tier):
         case['obj'] = draw(st.integers(0, 2**64))
         return case
     case['sender'] = draw(st.integers(0, m - 1))
-    case['receivers'] = draw(st.lists(st.integers(0, m - 1), min_size=1, max_size=m - 1, unique=True))
+    case['receivers'] = draw(st.lists(st.integers(0, m - 1), min_size=0, max_size=m - 1, unique=True))  # [] = nobody
     case['recv_int'] = len(case['receivers']) == 1 and draw(st.booleans())
     case['threshold'] = draw(st.sampled_from([None, None, t, 2 * t]))
     k = typ[0]
